@@ -31,14 +31,15 @@ def work(args):
         if j % 3 == 0:
             cyc = G.polygon(3, 8)
             D = permuted_polygon(G, cyc, j // 3)
-            o = impl.build(D)
+            rev = R.random() < 0.3      # the public reverse=True form of the constructor: same point set, opposite normal, same measures
+            o = impl.ConvexPolygon(tuple(impl.Pt(p) for p in D[1]), reverse=True) if rev else impl.build(D)
             if R.random() < 0.25:      # measures of an object that was moved in place (cached centre / plane must follow)
                 mv = tuple(F(R.randint(-9, 9)) for _ in range(3))
                 o.move(impl.Vc(mv))
                 cyc = [E.add(p, mv) for p in cyc]
                 D = ('G', [E.add(p, mv) for p in D[1]])
             apex = G.pt(3)
-            obs = dict(length=impl.call(o.length), area=impl.call(o.area))
+            obs = dict(length=impl.call(o.length), area=impl.call(o.area), rev=rev)
             n_ = E.polygon_normal(cyc)
             if E.dot(n_, E.sub(apex, cyc[0])) != 0:
                 py = Pyramid(o, impl.Pt(apex), direct_call=False)
@@ -110,9 +111,11 @@ def run(ctx, scale=1):
                 raise RuntimeError('model volume %s differs from the exact hull volume %s: %s' % (t[2], vol, key))
             ctx.dist['polyhedron %d vertices %d faces' % (len(E.vertices_of(D)), len(D[1]))] += 1
             refs = dict(length=sum(math.sqrt(float(x)) for x in lens), area=sum(math.sqrt(float(a)) / 2 for a in areas), volume=float(vol), volume_fn=float(vol))
+        if obs.get('rev'):
+            ctx.dist['polygon built with reverse=True'] += 1
         for k, ref in refs.items():
             r = obs.get(k)
-            if r is None:
+            if r is None or k == 'rev':
                 continue
             if r[0] != 'ok':
                 problems.append('%s raises %s' % (k, r[1:]))
@@ -126,9 +129,9 @@ def run(ctx, scale=1):
             ctx.stats['rejected-by-admission: ' + why] += 1
             continue
         ctx.stats['DISAGREE'] += 1
-        ctx.violation(key, '%s: %s' % (tok(D)[:300], '; '.join(problems[:4])), dict(d=gen.jsonable(D), apex=gen.jsonable(apex) if apex else None))
+        ctx.violation(key, '%s: %s' % (tok(D)[:300], '; '.join(problems[:4])), dict(d=gen.jsonable(D), apex=gen.jsonable(apex) if apex else None, rev=bool(obs.get('rev'))))
     for D, apex, obs in cases[:3]:
-        ctx.sample('%s -> %s' % (tok(D)[:160], {k: v[1:] for k, v in obs.items() if k != 'seg'}))
+        ctx.sample('%s -> %s' % (tok(D)[:160], {k: v[1:] for k, v in obs.items() if k not in ('seg', 'rev')}))
 
 
 def search(ctx):
@@ -138,7 +141,7 @@ def search(ctx):
 def replay(ctx, case):
     from .. import impl
     D = gen.from_jsonable(case['case']['d'])
-    o = impl.build(D)
+    o = impl.ConvexPolygon(tuple(impl.Pt(p) for p in D[1]), reverse=True) if case['case'].get('rev') else impl.build(D)
     ok = True
     if D[0] == 'G':
         lens, a4 = E.measures(D)
